@@ -193,6 +193,42 @@ def run_laws(ctx, p):
     ctx.nontrivial('laws', cname, np.round(A, 6).tolist(), np.round(B, 6).tolist())
 
 
+def run_udqlaws(ctx, p):
+    """unit-dual-quaternion route: composed objects (products of two and three factors, whose real part may lie in either
+    hemisphere) applied to points against R p + t of the composed motion, and (X*Y)*p == X*(Y*p)"""
+    sm = S()
+    mats = [np.asarray(m, dtype=np.float64) for m in p['mats']]
+    P = np.asarray(p['P'], dtype=np.float64)
+    sig = dict(api='UnitDualQuaternion')
+    try:
+        U = [sm.UnitDualQuaternion(sm.SE3(m)) for m in mats]
+        prod = U[0]
+        for u in U[1:]:
+            prod = prod * u
+        l1 = np.column_stack([np.asarray(prod * P[:, i]).reshape(-1) for i in range(P.shape[1])])
+        l2 = P
+        for u in reversed(U):
+            l2 = np.column_stack([np.asarray(u * l2[:, i]).reshape(-1) for i in range(l2.shape[1])])
+    except Exception as e:
+        ctx.bad('laws', dict(sig, kind='raised', exc=type(e).__name__, where=_where(e)), 'UnitDualQuaternion point laws raised %r' % (e,))
+        return
+    Tref = np.eye(4, dtype=ref.LD)
+    for m in mats:
+        Tref = Tref @ np.asarray(m, dtype=ref.LD)
+    want = np.array(Tref[:3, :3] @ P.astype(ref.LD) + Tref[:3, 3:4], dtype=np.float64)
+    mag = magnitude(P, want, *[m[:3, 3] for m in mats])
+    e1 = float(np.max(np.abs(l1 - l2)))
+    e2 = float(np.max(np.abs(l1 - want)))
+    ctx.judge('laws', e1 <= TOL * mag, dict(sig, kind='compose', factors=len(mats)),
+              lambda: '(X*Y..)*p differs from X*(Y*..p) by %.3g (allowed %.3g) on the unit-dual-quaternion route; real part of the product %s; got %s want %s' % (
+                  e1, TOL * mag, core.short(prod.real.A, 80), core.short(l1, 200), core.short(l2, 200)))
+    ctx.judge('laws', e2 <= TOL * mag, dict(sig, kind='compose_vs_matrix', factors=len(mats)),
+              lambda: '(X*Y..)*p differs from the homogeneous-matrix product applied to p by %.3g (allowed %.3g); real part of the product %s' % (
+                  e2, TOL * mag, core.short(prod.real.A, 80)))
+    ctx.cell('laws', 'UnitDualQuaternion', len(mats), 's<0' if prod.real.s < 0 else 's>=0')
+    ctx.nontrivial('udqlaws', [np.round(m, 6).tolist() for m in mats])
+
+
 # ----------------------------------------------------------------------------- routes
 def run_routes(ctx, p):
     import spatialmath.base as base
@@ -241,7 +277,7 @@ def run_routes(ctx, p):
     ctx.nontrivial('routes', np.round(T, 6).tolist(), np.round(P, 6).tolist())
 
 
-RUNNERS = {'act': run_act, 'laws': run_laws, 'routes': run_routes}
+RUNNERS = {'act': run_act, 'laws': run_laws, 'routes': run_routes, 'udqlaws': run_udqlaws}
 
 
 # ----------------------------------------------------------------------------- contracts on homogeneous helpers
@@ -360,6 +396,9 @@ def run(ctx):
         rigid = cname in ('SE2', 'SE3')
         A, B = pose_mats(rng, d, 2, rigid)
         drive(RUNNERS, ctx, 'laws', dict(cls=cname, A=A, B=B, P=points(rng, d, 4)))
+    for _ in range(ctx.scale(400, 8000)):
+        k = int(rng.integers(2, 4))
+        drive(RUNNERS, ctx, 'udqlaws', dict(mats=pose_mats(rng, 3, k, True), P=points(rng, 3, 3)))
     for _ in range(ctx.scale(400, 8000)):
         d = 3 if rng.random() < 0.7 else 2
         T = pose_mats(rng, d, 1, rng.random() < 0.6)[0]
